@@ -528,7 +528,18 @@ class SymSeq(Model):
     a = clamp(lo, z3.IntVal(0))
     b = clamp(hi, n)
     ln = z3.If(b > a, b - a, 0)
-    return SymSeq(self.ty, z3.SubSeq(self.term, a, ln), self.name + '[:]')
+    out = SymSeq.fresh(ip, self.ty, self.name + '[:]')
+    i = z3.Int('i?')
+    ip.ctx.assume(out.term == z3.SubSeq(self.term, a, ln))
+    ip.ctx.assume(out.length() == ln)
+    ip.ctx.assume(z3.ForAll([i], z3.Implies(z3.And(0 <= i, i < ln), out.term[i] == self.term[a + i])))
+    # facts that hold for every contiguous sub-sequence (membership, distinctness, sortedness)
+    for f in getattr(self, 'sub_facts', []):
+      for fact in f(out.term):
+        ip.ctx.assume(fact)
+    out.sub_facts = list(getattr(self, 'sub_facts', []))
+    out.slice_of = (self, a, ln)
+    return out
 
   def as_symseq(self, ip):
     return self
